@@ -3,7 +3,9 @@ use std::any::type_name;
 use std::backtrace::Backtrace;
 #[cfg(debug_assertions)]
 use std::cell::RefCell;
-use std::cell::{Cell, UnsafeCell};
+#[cfg(not(folo_verif))]
+use std::cell::Cell;
+use std::cell::UnsafeCell;
 use std::fmt;
 use std::marker::{PhantomData, PhantomPinned};
 use std::mem::{MaybeUninit, offset_of};
@@ -16,6 +18,8 @@ use std::task::Waker;
 
 #[cfg(debug_assertions)]
 use crate::{BacktraceType, capture_backtrace};
+#[cfg(folo_verif)]
+use crate::verif::LocalCell as Cell;
 use crate::{
     BoxedLocalReceiver, BoxedLocalRef, BoxedLocalSender, Disconnected, EVENT_AWAITING, EVENT_BOUND,
     EVENT_DISCONNECTED, EVENT_SET, EmbeddedLocalEvent, LocalReceiverCore, LocalSenderCore,
@@ -107,6 +111,9 @@ impl<T: 'static> LocalEvent<T> {
         unsafe {
             state_ptr.write(Cell::new(EVENT_BOUND));
         }
+
+        #[cfg(folo_verif)]
+        crate::verif::created(base_ptr.addr(), state_ptr.addr());
 
         #[cfg(debug_assertions)]
         {
@@ -275,6 +282,9 @@ impl<T: 'static> LocalEvent<T> {
         // event through this cell, so no exclusive reference can alias this one.
         let event = unsafe { &*event_cell.get() };
 
+        #[cfg(folo_verif)]
+        crate::verif::cell(event_cell.get().addr(), "backtrace", "w");
+
         let mut backtrace = event.backtrace.borrow_mut();
 
         *backtrace = None;
@@ -308,6 +318,8 @@ impl<T: 'static> LocalEvent<T> {
         // * There is only one sender and it is single-threaded, so it cannot be used in parallel.
         // * The receiver will only access this field in the "Set" state, which can only be entered
         //   from later on in this method.
+        #[cfg(folo_verif)]
+        crate::verif::cell(event_cell.get().addr(), "value", "w");
         unsafe {
             value_cell.write(MaybeUninit::new(value));
         }
@@ -348,6 +360,8 @@ impl<T: 'static> LocalEvent<T> {
                     // We extract the waker and consider the field uninitialized again.
                     // SAFETY: We were in EVENT_AWAITING which guarantees there is a waker
                     // in there.
+                    #[cfg(folo_verif)]
+                    crate::verif::cell(event_cell.get().addr(), "awaiter", "r");
                     unsafe { awaiter_cell.assume_init_read() }
                 };
 
@@ -373,6 +387,8 @@ impl<T: 'static> LocalEvent<T> {
                 // We drop the value and consider the cell uninitialized.
                 //
                 // SAFETY: We were in EVENT_SET which guarantees there is a value in there.
+                #[cfg(folo_verif)]
+                crate::verif::cell(event_cell.get().addr(), "value", "w");
                 unsafe {
                     value_cell.assume_init_drop();
                 }
@@ -399,6 +415,8 @@ impl<T: 'static> LocalEvent<T> {
     #[inline]
     #[must_use]
     pub(crate) fn poll(&self, waker: &Waker) -> Option<Result<T, Disconnected>> {
+        #[cfg(all(folo_verif, debug_assertions))]
+        crate::verif::cell((&raw const *self).addr(), "backtrace", "w");
         #[cfg(debug_assertions)]
         self.backtrace.replace(Some(capture_backtrace()));
 
@@ -439,6 +457,8 @@ impl<T: 'static> LocalEvent<T> {
                 // SAFETY: UnsafeCell pointer is never null.
                 let awaiter_cell = unsafe { awaiter_cell_maybe.unwrap_unchecked() };
 
+                #[cfg(folo_verif)]
+                crate::verif::cell((&raw const *self).addr(), "awaiter", "w");
                 awaiter_cell.write(new_waker);
 
                 // The sender will wake us up when it has set the value.
@@ -497,6 +517,8 @@ impl<T: 'static> LocalEvent<T> {
         // We extract the value and consider the cell uninitialized.
         //
         // SAFETY: We were in EVENT_SET which guarantees there is a value in there.
+        #[cfg(folo_verif)]
+        crate::verif::cell((&raw const *self).addr(), "value", "r");
         unsafe { value_cell.assume_init_read() }
     }
 
@@ -537,7 +559,11 @@ impl<T: 'static> LocalEvent<T> {
                     // any reentrant poll triggered while the previous waker is dropped below.
                     // SAFETY: We were in EVENT_AWAITING which guarantees there is a waker
                     // in there.
+                    #[cfg(folo_verif)]
+                    crate::verif::cell((&raw const *self).addr(), "awaiter", "r");
                     let previous_waker = unsafe { awaiter_cell.assume_init_read() };
+                    #[cfg(folo_verif)]
+                    crate::verif::cell((&raw const *self).addr(), "awaiter", "w");
                     awaiter_cell.write(new_waker);
                     previous_waker
                 };
@@ -616,6 +642,8 @@ impl<T: 'static> LocalEvent<T> {
 
                 // We extract the waker and consider the field uninitialized again.
                 // SAFETY: We were in EVENT_AWAITING which guarantees there is a waker in there.
+                #[cfg(folo_verif)]
+                crate::verif::cell(event_cell.get().addr(), "awaiter", "r");
                 let waker = unsafe { awaiter_cell.assume_init_read() };
 
                 // Come and get it. The event is in a terminal state, so the woken receiver may
@@ -689,6 +717,8 @@ impl<T: 'static> LocalEvent<T> {
 
             // We drop the waker and consider the field uninitialized again.
             // SAFETY: We were in EVENT_AWAITING which guarantees there is a waker in there.
+            #[cfg(folo_verif)]
+            crate::verif::cell(event_cell.get().addr(), "awaiter", "w");
             unsafe {
                 awaiter_cell.assume_init_drop();
             }
@@ -724,6 +754,8 @@ impl<T: 'static> LocalEvent<T> {
                 // We extract the value and consider the cell uninitialized.
                 //
                 // SAFETY: We were in EVENT_SET which guarantees there is a value in there.
+                #[cfg(folo_verif)]
+                crate::verif::cell(event_cell.get().addr(), "value", "r");
                 let value = unsafe { value_cell.assume_init_read() };
 
                 // The receiver will clean up.
